@@ -365,3 +365,20 @@ def arms(tier):
 MIN_CLASS_COUNTS = {"opt:tags:two-prefixes-match-one-tag": 60, "application-tagged-values": 1500}
 REQUIRED_CLASSES = ["opt:tags:two-prefixes-match-one-tag", "application-tagged-values", "sort_keys:on", "sort_keys:off", "container>=3-keys", "set>=2-members", "anchors>=2", "docs>1-with-anchors",
                     "keys:str", "keys:number", "keys:bytes", "keys:date", "keys:datetime", "keys:aware-datetime"]
+
+
+def known_class(arm, case, key):
+    """The listed libyaml defect (its emitter folds inside a more-indented line of a folded scalar, which changes the text):
+    what CSafeDumper wrote then does not reload to the value, so neither the fixed point nor the key order can hold."""
+    parts = key.split(":")
+    if parts[0] in ("not-a-fixed-point", "insertion-order-lost", "reload-raised", "redump-raised") and len(parts) > 1 and parts[1].startswith("CSafeDumper"):
+        from checks.c02 import c_folded_more_indented
+        bps, opts, _ = case
+        if any(c_folded_more_indented(gv.build(bp)[0], opts) for bp in bps):
+            return "libyaml-folds-inside-more-indented-line"
+    return None
+
+
+def pinned_known(key, rec):
+    from checks import c02
+    return c02.pinned_known(key, rec)
